@@ -276,7 +276,7 @@ Qed.
 Lemma psm_extend_loop_okl st ps segs : forall s s', psm_extend_loop dbg st ps s segs = Some s' -> okl s -> okl s'.
 Proof.
   induction segs as [|seg rest IH]; intros s s' H Hs; cbn [psm_extend_loop] in H; [inversion H; subst; exact Hs|].
-  destruct (list_eqb seg [46] || list_eqb seg [46; 46]); [eapply IH; eassumption|]. cbv zeta in H.
+  destruct (psm_skips seg); [eapply IH; eassumption|]. cbv zeta in H.
   ob H a Ha. destruct a as [[s2 hh] rem]. apply unpres_some in Ha.
   eapply IH; [exact H|]. eapply parse_path_okl; [exact P_ok | exact Ha|]. okt P_ok.
 Qed.
